@@ -262,6 +262,18 @@ pub fn stages(ctx: &Ctx) -> Vec<Stage> {
         cfg.dt_max *= f;
         cfg.dt_min = cfg.dt_max * rng.log10(-8.0, -6.0);
         cfg.t1 = cfg.t0 + cfg.dt_max * rng.log10(0.5, 2.3);
+        if rng.chance(0.08) {
+            // "far below what the method needs" has no lower end: minimum steps down to 1e-30 dt_max
+            // (far below the spacing of the floats at the state and at the time)
+            cfg.dt_min = cfg.dt_max * rng.log10(-30.0, -9.0);
+            rep.count(&format!("{}/solves_with_minimum_step_below_1e-9_dt_max", solver.name()), 1);
+        }
+        if solver.is_rk() && rng.chance(0.03) {
+            // no step cap at all (the span is fixed first): the first trial step is then infinite and
+            // must be cut down by the controller like any other over-long step
+            cfg.dt_max = f64::INFINITY;
+            rep.count(&format!("{}/solves_without_a_step_cap", solver.name()), 1);
+        }
         let mode = if rng.bool() { DimMode::Static } else { DimMode::Dynamic };
         run_case(rep, solver, &prob, &cfg, mode, "random");
     }));
